@@ -82,6 +82,8 @@ func genConfig(t *rapid.T, p profile) harness.Config {
 	c.Setups = perm(t, "setuporder", sets)
 	c.SetupsFirst = len(sets) > 0 && chance(t, "setupsfirst", 30)
 	c.LegacyRedirect = chance(t, "legacyredirect", 12)
+	c.NilEmptyState = chance(t, "nilemptystate", 20)
+	c.MiddlewareEarly = chance(t, "middlewareearly", 20)
 	c.Mount = pick(t, "mount", "/auth", "/auth", "", "/a/b")
 	c.JSON = chance(t, "json", 40)
 	c.Username = chance(t, "username", 20)
@@ -113,8 +115,14 @@ func genConfig(t *rapid.T, p profile) harness.Config {
 	n := rapid.IntRange(p.accts[0], p.accts[1]).Draw(t, "naccts")
 	for i := 0; i < n; i++ {
 		a := harness.AccountSpec{Password: goodPWs[i%4]}
-		short := chance(t, "shortpid", 15) // one-character names are valid identifiers too
+		short := chance(t, "shortpid", 15)     // one-character names are valid identifiers too
+		mixed := chance(t, "mixedcasepid", 15) // identifiers are case-sensitive strings to the library
 		switch {
+		case c.Username && mixed && !short:
+			a.PID = fmt.Sprintf("User%c", 'A'+i)
+			a.Email = fmt.Sprintf("user%c@mail.io", 'a'+i)
+		case !c.Username && mixed && !short:
+			a.PID = fmt.Sprintf("Acct%c@X.io", 'A'+i)
 		case c.Username && short:
 			a.PID = fmt.Sprintf("%c", 'a'+i)
 			a.Email = fmt.Sprintf("%c@mail.io", 'a'+i)
@@ -241,7 +249,7 @@ var (
 	poolEv       = []sc{{"evtok", 40, "own", []string{"", "", "flip", "trunc"}}, {"evtok", 10, "other", nil}, {"sesstok", 10, "", nil},
 		{"empty", 12, "", nil}, {"absent", 12, "", nil}, {"lit", 6, "", nil}}
 	poolState  = []sc{{"state", 50, "own", []string{"", "", "", "flip", "trunc", "ext"}}, {"stateold", 15, "own", nil}, {"empty", 8, "", nil}, {"absent", 8, "", nil}, {"lit", 6, "", nil}}
-	poolCookie = []sc{{"cookie", 50, "any", []string{"", "", "", "flip", "truncbytes", "extbytes", "trunc", "altbits"}}, {"lit", 10, "", nil}, {"empty", 5, "", nil},
+	poolCookie = []sc{{"cookie", 50, "any", []string{"", "", "", "flip", "truncbytes", "extbytes", "trunc", "altbits", "nonceonly", "sepnonce", "pidonly"}}, {"lit", 10, "", nil}, {"empty", 5, "", nil},
 		{"pwhash", 4, "any", nil}}
 )
 
